@@ -337,3 +337,29 @@ def accumulator_invariant(c):
 from contracts.C01 import to_vector_c as _to_vector_contract          # noqa: E402
 contract("C16", "polarization_normalised", ["holopy.core.metadata:to_vector", "holopy.core.metadata:update_metadata"])(
     _to_vector_contract.fn if hasattr(_to_vector_contract, 'fn') else _to_vector_contract)
+
+
+@contract("C16", "load_average_reference_window_native", [IO + "load_average"], native_only=True,
+          bounded="native sampling: three 90x3 images, a reference window of 3 rows starting at every row index incl. those where (k*s)/s < k in floating point")
+def load_average_reference_window(c):
+    """averaging cropped to a reference image: the result is the pixelwise mean of exactly the reference image's window - the pixels
+    whose coordinates the reference image has - with the reference's coordinates, for every window origin and pixel spacing"""
+    spacing = c.choice("spacing", [0.1, 0.0851, 0.25])
+    rng = np.random.RandomState(c.int("seed", 0, 10 ** 6))
+    full = {nm: data_grid(rng.rand(90, 3) + 1.0, spacing=spacing) for nm in ("a.tif", "b.tif", "c.tif")}
+    saved = hio.load_image
+    hio.load_image = lambda path, spacing, channel=None: full[path]
+    try:
+        mean_full = sum(im.values for im in full.values()) / 3
+        bad = None
+        for k in range(0, 87):                                   # every window origin on every run
+            ref = full["a.tif"].isel(x=slice(k, k + 3))
+            avg = hio.load_average(sorted(full), refimg=ref, medium_index=1.33)
+            ok = bool(np.allclose(avg.values, mean_full[:, k:k + 3, :])) and bool(np.allclose(avg.x.values, ref.x.values))
+            if not ok and bad is None:
+                bad = "window starting at row %d (x = %r, spacing %r): mean of rows %s returned" % (
+                    k, float(ref.x.values[0]), spacing,
+                    [int(i) for i in range(88) if np.allclose(avg.values[0, 0], mean_full[0, i])][:1])
+    finally:
+        hio.load_image = saved
+    c.ensures("mean-of-the-reference-window-for-every-origin", bad is None, detail=bad)
